@@ -150,9 +150,9 @@ fn api_step(op: usize, witness: bool) {
     if r.is_err() && !wrong_mode && matches!(op, 3 | 10) && c.fault_at >= c.cmds {
         assert!(l.radio_mode == RadioMode::Standby && c.standby, "C14 after a failed or timed-out operation the chip is left in standby and the driver knows it");
     }
-    // KF-C14-1 (open finding): an error while fetching the packet AFTER the chip reported RxDone
-    let kf = op == 6 && r.is_err() && !wrong_mode && c.done_seen;
-    kani::assume(kf == witness);
+    // (KF-C14-1, fixed in /repo: an error while fetching the packet AFTER the chip reported RxDone is now part of the
+    // class below; `witness` is kept as a parameter only so that the harness list stays stable)
+    let _ = witness;
     if r.is_err() && !wrong_mode && op == 6 && mode0 != RadioMode::Receive(RxMode::Continuous) && c.fault_at >= c.cmds {
         assert!(l.radio_mode == RadioMode::Standby && c.standby, "C14 a failed or timed-out single reception leaves the chip in standby and the driver knows it");
     }
@@ -224,9 +224,3 @@ fn c18_lora_rx_length() {
     }
     kani::cover!(true, "verif-reached: end");
 }
-
-// witness of KF-C14-1 (open finding), expected to FAIL while it is open
-// @verif props=C14 obligation=LoRa::complete_rx.step_invariants[KF-C14-1] label=bounded(3-polls) tier=quick finding=KF-C14-1
-#[kani::proof]
-#[kani::unwind(20)]
-fn c14_lora_complete_rx_kf1_witness() { api_step(6, true) }
